@@ -315,3 +315,7 @@ def run(ck):
     from .. import condparity as _cp
     ck.floor("SIB/ref-conditions", _cp.check(ck, P, "SIB/ref-conditions", only={"inflate.c:inflate", "deflate.c:deflate", "deflate.c:deflateSetHeader", "inflate.c:inflateGetHeader"}), 80)
     ck.assumptions += ["rustc MIR", "arm regions", "host target; K1"]
+
+# session 5 (round 9, D24)
+EXPLANATION = EXPLANATION + " " + (
+    "FIELD/copy-identity (shared with C14): deflateCopy keeps the offset into a header field written in part. ORDER/arm-store-before-suspend: `gzindex = 0` of the GZip arm precedes the arm's suspension test.")
